@@ -25,6 +25,7 @@ FLOORS = {"ref_retargets": {"quick": 500, "thorough": 8000}, "ref_target_ticks":
           "coll_ref_retargets": {"quick": 150, "thorough": 2500}, "coll_ref_target_ticks": {"quick": 300, "thorough": 5000},
           "coll_ref_retarget_while_old_target_removes": {"quick": 15, "thorough": 250},
           "sibling_ref_retargets": {"quick": 150, "thorough": 2500}, "sibling_ref_unselected_ticks": {"quick": 150, "thorough": 2500},
+          "coll_ref_republished_by_a_non_deduplicating_producer": {"quick": 150, "thorough": 2500},
           "getitem_retargets": {"quick": 60, "thorough": 900}, "getitem_target_ticks": {"quick": 60, "thorough": 900},
           "getitem_rebinds_after_key_appears": {"quick": 80, "thorough": 1200}, "getitem_cycles_with_absent_key": {"quick": 150, "thorough": 2000}}
 BATCH = 25
@@ -56,6 +57,12 @@ def gen_coll_ref(rng, name):
     c.graphs["main"] = [S("a", "csrc", shape=sh, uid=1), S("b", "csrc", shape=sh, uid=2), S("c", "src", uid=3, mode=0),
                         S("r", "ite", "c", "a", "b", uid=4), S("", "cmirror", "r", uid=10),
                         S("", "cmirror", "a", uid=11), S("", "cmirror", "b", uid=12)]
+    if rng.random() < 0.5:
+        # the reader sits below a producer that publishes the reference it holds AGAIN on every trigger tick (no de-duplication
+        # of its own): an unchanged reference applied again must not look like a tick
+        c.scripts[5] = [(0, 0)] + [(t, t) for t in sorted(rng.sample(range(1, end), rng.choice([4, 8, 14])))]      # (valid from the start)
+        c.graphs["main"][4:5] = [S("tg", "src", uid=5, mode=1), S("rp", "republish", "r", "tg", uid=6), S("", "cmirror", "rp", uid=10)]
+        c.meta["republish"] = 1
     if sh == "tsd" and rng.random() < 0.6:
         # the reference handed into sub-graphs (inline, nested, nested twice) that read the dictionary's KEY SET (keys_) and the
         # dictionary itself: cross-boundary retarget notifications
@@ -173,6 +180,10 @@ def gen_getitem_ref(rng, name):
     c.meta.update(kind="getitem", readers=[10, 12])
     c.graphs["main"] = [S("d", "csrc", shape="tsd", uid=1), S("k", "src", uid=2, mode=0), S("g", "getitem", "d", "k"),
                         S("z", "pass", "g", uid=10), S("", "rec", "z", uid=11), S("y", "pass", "g", uid=12), S("", "cmirror", "d", uid=13)]
+    if rng.random() < 0.4:
+        c.scripts[5] = [(0, 0)] + [(t, t) for t in sorted(rng.sample(range(1, end), rng.choice([4, 8, 14])))]      # (valid from the start)
+        c.graphs["main"][5:6] = [S("tg", "src", uid=5, mode=1), S("rp", "republish", "g", "tg", uid=6), S("y", "pass", "rp", uid=12)]
+        c.meta["republish"] = 1
     nest = rng.choice([0, 0, 1, 2])
     if nest:
         # a reader inside a nested graph (depth 1 / 2); the key ticks in the first cycle so that the reference handed in has been
@@ -446,7 +457,8 @@ def check_coll(case, tr):
                 prev_keys = keys
     for m in V[:5]:
         res.violations.append(Violation(m))
-    res.counters = {"nested_key_set_changes_checked": nested_key_checks, "coll_ref_retargets": retargets, "coll_ref_target_ticks": target_ticks, "coll_ref_unselected_ticks": unselected,
+    rep = sum(1 for t, _ in case.scripts.get(5, []) if t < case.end) if case.meta.get("republish") else 0
+    res.counters = {"coll_ref_republished_by_a_non_deduplicating_producer": rep, "nested_key_set_changes_checked": nested_key_checks, "coll_ref_retargets": retargets, "coll_ref_target_ticks": target_ticks, "coll_ref_unselected_ticks": unselected,
                     "coll_ref_republished_same": same, "coll_ref_retarget_while_old_target_removes": old_removes}
     res.nontrivial = retargets >= 2
     return res
